@@ -385,6 +385,7 @@ def run(ctx):
     def replayer(ctx2, ob, model):
         return _replay.run_native('c14.py', {'obligation': ob.name}, timeout=300)
     ctx.replayers['*'] = replayer
+    ctx.native_crosschecks.append(('c14.py', {'obligation': ''}, 'rejection / abort values and context-manager scenarios'))
     ctx.assumptions += [
         'the PDUs travel by the codec (C01: decode(encode(v)) == v for all field values) and the state machine (C04: '
         'A-ASSOCIATE-RJ, A-ABORT and A-RELEASE PDUs are handed to the local user in the states where the standard '
